@@ -549,6 +549,37 @@ theorem twoNode_one_tx_one_ack_suffice (a0 b0 : Nat) (sai : Option Nat) (evs : L
       rw [recvAck_acc s2' _ _ e2 (hfresh _ rfl), afterAck_done s2' _ _ i hp.1 c2 hp.2]
       exact List.mem_cons_self
 
+open TwoNode in
+/-- **Soundness of the trace monitor**: a log of observed events the driver accepts
+(`acceptsTrace`) is the trace of a schedule of the model, so everything proved above about every
+schedule holds for the run that produced it — in particular the log it ends with is in order and
+at-most-once, and every call it reports as successful was accepted by the receiver. -/
+theorem accepted_trace_is_a_run (a0 b0 : Nat) (sai : Option Nat) (os : List Obs) (s : Sys)
+    (h : acceptsTrace (init a0 b0 true sai) os = .ok s) :
+    (∃ evs, run (init a0 b0 true sai) evs = some s) ∧ s.app.Pairwise (· > ·) ∧
+    ∀ i, (i, true) ∈ s.res → i ∈ s.app := by
+  obtain ⟨evs, hrun⟩ := acceptsTrace_run _ _ _ h
+  exact ⟨⟨evs, hrun⟩, twoNode_in_order_at_most_once a0 b0 sai evs s hrun,
+    fun i hi => (twoNode_success_only_if_accepted a0 b0 sai evs s hrun i hi).1⟩
+
+/-- The receive window of an unsecured session (`enc = false`, the other half of the harness's
+system-level flows) differs from the secure one only for counters more than the window width behind
+the newest one — out of reach while fewer than 17 messages have been sent on the session. -/
+theorem unsecured_window_differs_only_behind (s : Dedup.RxState) (c : Nat)
+    (h : s.synced = false ∨ s.max ≤ c + Dedup.L) :
+    Dedup.postRecvPlain s c false = Dedup.postRecvPlain s c true := by
+  unfold Dedup.postRecvPlain
+  rcases h with h | h
+  · simp [h]
+  · by_cases h1 : s.synced = false
+    · simp [h1]
+    · by_cases h2 : c = s.max
+      · simp [h1, h2]
+      · by_cases h3 : c > s.max
+        · simp [h1, h2, h3]
+        · have : s.max - c ≤ Dedup.L := by omega
+          simp [h1, h2, h3, this]
+
 /-- non-vacuity of the two-node theorems: a schedule with a lost first transmission, a
 retransmission, a duplicated datagram whose second copy is acknowledged afresh, and a second message -/
 example :
